@@ -49,6 +49,11 @@ static void run(const char *op, size_t start, size_t size, size_t a, size_t bb, 
     FAULT_KIND = kind; FAULT_AT = at;
     mir_Clone_for_CircularBuffer_clone_from(&b, &o);
   }
+  else if (!strcmp(op, "eq")) {
+    mk(&o, start2, size2, 48);
+    FAULT_KIND = kind; FAULT_AT = at;
+    (void)mir_PartialEq_for_CircularBuffer_eq(&b, &o);
+  }
   else if (!strcmp(op, "clone")) { cb_t c = mir_Clone_for_CircularBuffer_clone(&b); if (UNWINDING) have_buf = 0; else b = c; /* the source is forgotten; report the clone */ }
   else if (!strcmp(op, "from_iter")) { user_I_t it; memset(&it, 0, sizeof it); it.mode = 0; it.remaining = a; cb_t c = mir_FromIterator_for_CircularBuffer_from_iter(it); if (UNWINDING) have_buf = 0; else b = c; }
   else if (!strcmp(op, "swap")) mir_CircularBuffer_swap(&b, a, bb);
@@ -109,6 +114,10 @@ int main(void) {
   const char *pops[] = { "swap", "range", "range_mut", "drain_new" };
   for (int o = 0; o < 4; o++) for (size_t start = 0; start < nstarts; start++) for (size_t size = 0; size <= NN; size++)
     for (size_t a = 0; a <= NN + 1; a++) for (size_t b = 0; b <= NN + 1; b++) run(pops[o], start, size, a, b, 0, 0, 0, 0);
+  static const unsigned efaults[4][2] = { {0,0},{5,0},{5,1},{5,2} };
+  for (size_t start = 0; start < nstarts; start++) for (size_t size = 0; size <= NN; size++)
+    for (size_t start2 = 0; start2 < nstarts; start2++) for (size_t size2 = 0; size2 <= NN; size2++)
+      for (int x = 0; x < 4; x++) run("eq", start, size, 0, 0, start2, size2, efaults[x][0], efaults[x][1]);
   const char *iops[] = { "index", "index_mut" };
   for (int o = 0; o < 2; o++) for (size_t start = 0; start < nstarts; start++) for (size_t size = 0; size <= NN; size++)
     for (size_t a = 0; a <= NN + 1; a++) run(iops[o], start, size, a, 0, 0, 0, 0, 0);
